@@ -562,13 +562,13 @@ func padLeft(value, width, pad any) (any, error) {
 		}
 	}
 
-	if len(p) != 1 {
+	if utf8.RuneCountInString(p) != 1 {
 		return nil, &padLengthError{
 			pad: p,
 		}
 	}
 
-	n := w - len(s)
+	n := w - utf8.RuneCountInString(s)
 	if n <= 0 {
 		return value, nil
 	}
@@ -629,13 +629,13 @@ func padRight(value, width, pad any) (any, error) {
 		}
 	}
 
-	if len(p) != 1 {
+	if utf8.RuneCountInString(p) != 1 {
 		return nil, &padLengthError{
 			pad: p,
 		}
 	}
 
-	n := w - len(s)
+	n := w - utf8.RuneCountInString(s)
 	if n <= 0 {
 		return value, nil
 	}
@@ -688,7 +688,7 @@ func padSpaceLeft(value, width any) (any, error) {
 		}
 	}
 
-	n := w - len(s)
+	n := w - utf8.RuneCountInString(s)
 	if n <= 0 {
 		return value, nil
 	}
@@ -741,7 +741,7 @@ func padSpaceRight(value, width any) (any, error) {
 		}
 	}
 
-	n := w - len(s)
+	n := w - utf8.RuneCountInString(s)
 	if n <= 0 {
 		return value, nil
 	}
